@@ -109,6 +109,10 @@ def gen_cases(ctx):
     for _ in range(ctx.scale(200, 2000)):
         ins = gen_invars(rng)
         yield {"stream": STREAM, "op": "set_input_values", "ins": ins, "array": gen_array(rng, len(ins))}
+    # `Variable.term(name_or_index)`: the same look-up on the terms of a variable (code tie `C02.code_variableTerm`)
+    for _ in range(ctx.scale(120, 1200)):
+        names = gen_names(rng, 4)
+        yield {"stream": STREAM, "op": "term", "names": names, "key": gen_key(rng, names, len(names))}
 
 
 # ------------------------------------------------------------------------------------------------ implementation
@@ -168,6 +172,9 @@ def observe(case):
                 e = engine_named(**{{"input_variable": "ins", "output_variable": "outs", "rule_block": "bls"}[op]: case["names"]})
                 lst = {"input_variable": e.input_variables, "output_variable": e.output_variables, "rule_block": e.rule_blocks}[op]
                 return ["ok", str(index_of(lst, getattr(e, op)(py_key(case["key"]))))]
+            if op == "term":
+                v = fl.InputVariable("v", terms=[fl.Triangle(n) for n in case["names"]])
+                return ["ok", str(index_of(v.terms, v.term(py_key(case["key"]))))]
             if op == "variable":
                 e = engine_named(case["ins"], case["outs"])
                 return ["ok", str(index_of(e.input_variables + e.output_variables, e.variable(py_key(case["key"]))))]
@@ -228,7 +235,7 @@ def array_sx(a):
 
 def model_line(case):
     op = case["op"]
-    if op in ("input_variable", "output_variable", "rule_block"):
+    if op in ("input_variable", "output_variable", "rule_block", "term"):
         return C.sx(["eio-lookup", hx(case["names"]), key_sx(case["key"])])
     if op == "variable":
         return C.sx(["eio-variable", hx(case["ins"]), hx(case["outs"]), C.hexs(case["key"][1])])
@@ -259,7 +266,7 @@ def documented(case):
             return ["ok", str(k % len(names))] if -len(names) <= k < len(names) else ["err", "lookup"]
         return ["ok", str(names.index(k))] if k in names else ["err", "value"]
 
-    if op in ("input_variable", "output_variable", "rule_block"):
+    if op in ("input_variable", "output_variable", "rule_block", "term"):
         return find(case["names"], case["key"])
     if op == "variable":
         return find(case["ins"] + case["outs"], case["key"])
